@@ -341,6 +341,13 @@ def run_batches(binary, profile, verif_seed, total_runs, batch_size, workers=Non
 # ---------------------------------------------------------------------------------------------
 # Minimisation (ddmin over trace lines, then numeric arguments)
 
+def _exec(target, text, timeout):
+    """target is a simdev binary path, or a callable(text) -> Outcome (in-process engines)."""
+    if callable(target):
+        return target(text)
+    return run_trace(target, text, timeout)
+
+
 def split_trace(text):
     lines = [l for l in text.split('\n') if l.strip()]
     assert lines and lines[0].startswith('PROFILE ')
@@ -365,7 +372,7 @@ def ddmin(binary, text, ref_class, timeout=30, max_tests=4000, keep=lambda l: Fa
 
     def fails(cand):
         tests[0] += 1
-        return same_failure(run_trace(binary, join_trace(head, cand), timeout), ref_class)
+        return same_failure(_exec(binary, join_trace(head, cand), timeout), ref_class)
 
     # quick win: truncate after the failing op
     n = 2
@@ -401,7 +408,7 @@ def shrink_numbers(binary, text, ref_class, timeout=30, max_tests=1500):
 
     def fails(cand):
         tests[0] += 1
-        return same_failure(run_trace(binary, join_trace(head, cand), timeout), ref_class)
+        return same_failure(_exec(binary, join_trace(head, cand), timeout), ref_class)
 
     for idx in range(len(lines)):
         toks = lines[idx].split(' ')
@@ -442,7 +449,7 @@ def expand_repeats(text):
 
 def minimise(binary, text, ref_class, timeout=30):
     ex = expand_repeats(text)
-    if same_failure(run_trace(binary, ex, timeout), ref_class):
+    if same_failure(_exec(binary, ex, timeout), ref_class):
         text = ex
     t1, n1 = ddmin(binary, text, ref_class, timeout)
     t2, n2 = shrink_numbers(binary, t1, ref_class, timeout)
